@@ -1,13 +1,23 @@
 /* drv_al.c — array-list domain (C07).  Same script and observation format as
  * ocaml/drv_al.ml.  Mode d drives array_list_* directly (elements are heap boxes holding
  * the id, the free callback logs and frees them); mode j drives json_object_array_* of
- * json_object.c (elements are json int objects whose value is the id; a userdata delete
- * callback logs the id when the array's json_object_put destroys the element). */
+ * json_object.c (elements are json int objects, or json strings holding the decimal text when
+ * the id is a multiple of 3, whose value — as json_object_get_int64 reads it — is the id; a
+ * userdata delete callback logs the CURRENT value when the array's json_object_put destroys
+ * the element).
+ * Ops: A P I D H G M as before; S / R sort by the ascending / descending comparator; B<k> / C<k>
+ * bsearch by the ascending / descending comparator; V<i>,<v> changes the value of element i in
+ * place (json_object_set_int64 / set_int / set_string on the element, *box = v in mode d) without
+ * calling the array.  A lower-case op letter (a p i d h g m s r b c) performs the same operation
+ * through array_list_* on json_object_get_array(arr) in mode j (same as upper case in mode d). */
+#include <ctype.h>
 #include "common.h"
 #include "arraylist.h"
 #include "json_object.h"
 const char *DOMAIN = "al";
 
+static int jmode;
+static int jmode_is_j(void) { return jmode; }
 static long *rel_log;
 static size_t rel_n, rel_cap;
 static long live_elts;     /* elements created and not yet destroyed */
@@ -62,16 +72,23 @@ static int cmp_box(const void *a, const void *b)
 	if (!x || !y) return (x != NULL) - (y != NULL);
 	return (*x > *y) - (*x < *y);
 }
+static int cmp_box_desc(const void *a, const void *b) { return cmp_box(b, a); }
 /* ---- mode j ---- */
 static void jdel(struct json_object *o, void *ud)
 {
-	(void)o;
-	log_rel((long)(intptr_t)ud);
+	(void)ud;
+	log_rel((long)json_object_get_int64(o));     /* the value the element has now */
 	live_elts--;
 }
 static struct json_object *mkjint(long id)
 {
-	struct json_object *o = json_object_new_int64(id);
+	struct json_object *o;
+	if (id % 3 == 0) {
+		char buf[32];
+		snprintf(buf, sizeof buf, "%ld", id);
+		o = json_object_new_string(buf);
+	} else
+		o = json_object_new_int64(id);
 	if (!o) return NULL;
 	json_object_set_userdata(o, (void *)(intptr_t)id, jdel);
 	live_elts++;
@@ -85,8 +102,29 @@ static int cmp_j(const void *a, const void *b)
 	u = json_object_get_int64(x); v = json_object_get_int64(y);
 	return (u > v) - (u < v);
 }
+static int cmp_j_desc(const void *a, const void *b) { return cmp_j(b, a); }
+static int jmode_null_set(void)
+{
+	/* the setters accept a NULL object and report failure */
+	return jmode ? json_object_set_int64(NULL, 5) : 0;
+}
+/* change the value of an element in place; 1 = done, 0 = nothing to change (NULL element) */
+static int set_value(void *p, long v)
+{
+	struct json_object *o = (struct json_object *)p;
+	if (!p) return jmode_null_set();
+	if (!jmode_is_j()) { *(long *)p = v; return 1; }
+	if (json_object_get_type(o) == json_type_string) {
+		char buf[32];
+		if (json_object_set_int64(o, 777) != 0 || json_object_set_int(o, 7) != 0) return -7;  /* wrong-type setters must refuse */
+		snprintf(buf, sizeof buf, "%ld", v);
+		return json_object_set_string(o, buf);
+	}
+	if (json_object_set_string(o, "777") != 0) return -7;
+	if ((v & 1) && v <= INT_MAX) return json_object_set_int(o, (int)v);
+	return json_object_set_int64(o, (int64_t)v);
+}
 
-static int jmode;
 static struct array_list *arr;
 static struct json_object *jarr;
 
@@ -161,13 +199,16 @@ void run_case(char *rest)
 		char *comma = strchr(tok, ',');
 		int r = 0;
 		char rbuf[32];
+		/* lower case: through array_list_* on json_object_get_array() (mode j) */
+		int viaj = jmode && !islower((unsigned char)tok[0]);
+		struct array_list *al = jmode ? json_object_get_array(jarr) : arr;
 		if (!first) printf(" | ");
 		first = 0;
 		rel_n = 0;
-		switch (tok[0]) {
+		switch (toupper((unsigned char)tok[0])) {
 		case 'A': {
 			void *e = mkelt(tok + 1);
-			r = jmode ? json_object_array_add(jarr, (struct json_object *)e) : array_list_add(arr, e);
+			r = viaj ? json_object_array_add(jarr, (struct json_object *)e) : array_list_add(al, e);
 			if (r != 0) drop(e);
 			break; }
 		case 'M': {      /* M<k>,<id0>: k appends of the ids id0, id0+1, ...; stops at the first refusal */
@@ -177,7 +218,7 @@ void run_case(char *rest)
 			id0 = strtol(comma + 1, NULL, 10);
 			for (j = 0; j < k; j++) {
 				void *e = mkid(id0 + (long)j);
-				r = jmode ? json_object_array_add(jarr, (struct json_object *)e) : array_list_add(arr, e);
+				r = viaj ? json_object_array_add(jarr, (struct json_object *)e) : array_list_add(al, e);
 				if (r != 0) { drop(e); break; }
 			}
 			break; }
@@ -186,42 +227,55 @@ void run_case(char *rest)
 			void *e;
 			if (!comma) { printf("BADOP"); goto out; }
 			e = mkelt(comma + 1);
-			if (tok[0] == 'P')
-				r = jmode ? json_object_array_put_idx(jarr, i, (struct json_object *)e) : array_list_put_idx(arr, i, e);
+			if (toupper((unsigned char)tok[0]) == 'P')
+				r = viaj ? json_object_array_put_idx(jarr, i, (struct json_object *)e) : array_list_put_idx(al, i, e);
 			else
-				r = jmode ? json_object_array_insert_idx(jarr, i, (struct json_object *)e) : array_list_insert_idx(arr, i, e);
+				r = viaj ? json_object_array_insert_idx(jarr, i, (struct json_object *)e) : array_list_insert_idx(al, i, e);
 			if (r != 0) drop(e);
 			break; }
 		case 'D': {
 			size_t i = (size_t)strtoull(tok + 1, NULL, 10), c;
 			if (!comma) { printf("BADOP"); goto out; }
 			c = (size_t)strtoull(comma + 1, NULL, 10);
-			r = jmode ? json_object_array_del_idx(jarr, i, c) : array_list_del_idx(arr, i, c);
+			r = viaj ? json_object_array_del_idx(jarr, i, c) : array_list_del_idx(al, i, c);
 			break; }
 		case 'H': {
 			unsigned long long n = strtoull(tok + 1, NULL, 10);
-			if (jmode) {
+			if (viaj) {
 				if (n > INT_MAX) { printf("BADOP"); goto out; }
 				r = json_object_array_shrink(jarr, (int)n);
 			} else
-				r = array_list_shrink(arr, (size_t)n);
+				r = array_list_shrink(al, (size_t)n);
 			break; }
-		case 'S':
-			if (jmode) json_object_array_sort(jarr, cmp_j); else array_list_sort(arr, cmp_box);
+		case 'S': case 'R': {
+			int desc = toupper((unsigned char)tok[0]) == 'R';
+			int (*cmp)(const void *, const void *) =
+				jmode ? (desc ? cmp_j_desc : cmp_j) : (desc ? cmp_box_desc : cmp_box);
+			if (viaj) json_object_array_sort(jarr, cmp); else array_list_sort(al, cmp);
 			r = 0;
-			break;
+			break; }
+		case 'V': {
+			size_t i = (size_t)strtoull(tok + 1, NULL, 10);
+			if (!comma) { printf("BADOP"); goto out; }
+			r = set_value(get(i), strtol(comma + 1, NULL, 10));
+			if (r == -7) { printf("BADSET"); goto out; }
+			break; }
 		case 'G': {
-			void *p = get((size_t)strtoull(tok + 1, NULL, 10));
+			size_t gi = (size_t)strtoull(tok + 1, NULL, 10);
+			void *p = viaj || !jmode ? get(gi) : array_list_get_idx(al, gi);
 			if (p) snprintf(rbuf, sizeof rbuf, "%ld", id_of(p)); else strcpy(rbuf, "n");
 			obs(rbuf);
 			continue; }
-		case 'B': {
+		case 'B': case 'C': {
 			void *k = mkelt(tok + 1);
 			int found;
-			if (jmode)
-				found = json_object_array_bsearch((struct json_object *)k, jarr, cmp_j) != NULL;
+			int desc = toupper((unsigned char)tok[0]) == 'C';
+			int (*cmp)(const void *, const void *) =
+				jmode ? (desc ? cmp_j_desc : cmp_j) : (desc ? cmp_box_desc : cmp_box);
+			if (viaj)
+				found = json_object_array_bsearch((struct json_object *)k, jarr, cmp) != NULL;
 			else
-				found = array_list_bsearch((const void **)&k, arr, cmp_box) != NULL;
+				found = array_list_bsearch((const void **)&k, al, cmp) != NULL;
 			drop(k);
 			obs(found ? "f" : "nf");
 			continue; }
